@@ -252,9 +252,24 @@ def reached_hash_path(case, res) -> bool:
 
 
 # ------------------------------------------------------------------ Coq emission
+ZI_HEADER = ["From Coq Require Import Uint63.", "Definition zi (i : int) : Z := Uint63.to_Z i.", "Arguments zi _%uint63.",
+             "Definition zbig (l : list int) : Z := fold_left (fun acc d => Z.shiftl acc 62 + Uint63.to_Z d) l 0."]
+
+
 def cz(n):
-    t = hex(abs(n)) if abs(n) >= 2 ** 64 else str(abs(n))
-    return f"(-{t})" if n < 0 else t
+    # Coq interprets a decimal Z literal at ~60 us per digit (a 300-digit one takes 0.4 s); primitive 63-bit
+    # integer literals are parsed natively (20 x faster); larger numbers are given by their base-2^62 digits
+    a = abs(n)
+    if a < 1000:
+        t = str(a)
+    elif a < 2 ** 62:
+        t = f"(zi {a})"
+    else:                       # big-endian digits in base 2^62
+        ds = []
+        while a:
+            ds.append(a & (2 ** 62 - 1)); a >>= 62
+        t = "(zbig [" + "; ".join(str(d) for d in reversed(ds)) + "]%uint63)"
+    return f"(- {t})" if n < 0 else t
 
 
 def cname(s: str):
@@ -301,7 +316,7 @@ def cobs(c, ob):
 
 def emit_cases(path: Path, cases, results):
     lines = ["From Coq Require Import ZArith List.", "From PV Require Import Streams.Seeds.",
-             "Import ListNotations.", "Open Scope Z_scope."]
+             "Import ListNotations.", "Open Scope Z_scope."] + ZI_HEADER
     hashes = {}
     items = []
     for case, res in zip(cases, results):
